@@ -78,6 +78,31 @@ def run(ctx, F, rule="E-CANON"):
         ctx.ob(rule + ".key", "%s.key:%s:eq-op" % (rule, imp["self"].split("<")[0]), ops == ["=="] and not nots,
                "PartialEq::eq of the node type (%s) %s" % (F.where(fid), "is `children == children`" if ops == ["=="] and not nots else
                                                            "is not the plain equality of the children (operators %s)" % ops))
+    # the equality the unique tables probe with: `LevelViewSet::eq(node)` yields `|entry| node_of(entry) == node`
+    ntab = 0
+    for fid, r in sorted(F.fns.items()):
+        imp = r.get("impl") or {}
+        if not fid.endswith("::eq") or "LevelViewSet" not in imp.get("self", "") or imp.get("trait"):
+            continue
+        h = F.hir.get(fid)
+        if not h:
+            continue
+        ntab += 1
+        clos = [x for x in H.walk(h["body"]) if x.get("k") == "closure"]
+        ops = [x for c in clos for x in H.walk(c["body"]) if x.get("k") == "bin" and x.get("o") in ("==", "!=")]
+        nots = [x for c in clos for x in H.walk(c["body"]) if x.get("k") == "un" and x.get("o") == "!"]
+        ok = len(clos) == 1 and len(ops) == 1 and ops[0]["o"] == "==" and not nots
+        if ok:
+            # one side is the probe node (the function's parameter), the other is computed from the closure's parameter
+            params = set(H.param_names(h)) if hasattr(H, "param_names") else set()
+            cpar = {y.get("n") for p_ in clos[0].get("params", []) for y in H.walk(p_) if y.get("k") == "bind"}
+            sides = [{y.get("n") for y in H.walk(s_) if y.get("k") == "path" and y.get("res") == "local"} for s_ in (ops[0]["l"], ops[0]["r"])]
+            ok = any(sd & cpar for sd in sides) and any((sd & params) and not (sd & cpar) for sd in sides)
+        ctx.ob(rule + ".key", "%s.key:%s:table-eq" % (rule, fid.split("::")[0]), ok,
+               "LevelViewSet::eq (%s) %s" % (F.where(fid), "is `|entry| node_of(entry) == node`" if ok else
+                                             "is not the equality of the stored entry's node with the probe node: lookups, insertions and "
+                                             "removals in the unique table match the wrong entries"))
+    ctx.floor(rule + ".key", "probe equalities of the unique tables (index, pointer)", ntab, 2)
     # ---- funnel: get_or_insert ------------------------------------------------------------------------------
     nf = 0
     for fid, r in sorted(F.fns.items()):
